@@ -1,21 +1,21 @@
 ----------------------------- MODULE MC_Dnssec -----------------------------
 EXTENDS Dnssec
 MCZoneKinds == {"signed", "signed-same", "insecure", "optout", "nsec3"}
-MCQKinds == {"a", "cname", "wild", "nodata", "nx", "dname", "ent", "whost"}
+MCQKinds == {"a", "cname", "wild", "nodata", "nx", "dname", "ent", "whost", "rootnx"}
 SigBreak == {"data", "sigbytes", "signer", "expired"}
 KindsAt(pos) ==
-  CASE pos = "rootref"  -> SigBreak \cup {"strip", "dropds", "swapds"}
+  CASE pos = "rootkey"  -> SigBreak \cup {"strip"}
+    [] pos = "rootref"  -> SigBreak \cup {"strip", "dropds", "swapds"}
     [] pos = "referral" -> SigBreak \cup {"strip", "dropds", "swapds", "dropproof", "foreignproof"}
     [] pos = "dnskey"   -> SigBreak \cup {"strip", "clonetag", "roguekey"}
-    [] pos = "answer"   -> SigBreak \cup {"labels", "notyet", "strip", "dropproof", "foreignproof", "inject", "roguesig", "fakedname", "foreigndeny", "wildrep", "wildforeign"}
+    [] pos = "answer"   -> SigBreak \cup {"labels", "notyet", "strip", "dropproof", "foreignproof", "inject", "roguesig", "fakedname", "foreigndeny", "wildrep", "wildforeign", "barenx", "bareempty"}
 Untouched == [pos \in Positions |-> "none"]
 Single == {[Untouched EXCEPT ![pos] = k] : pos \in Positions, k \in SigBreak \cup {"strip", "dropds", "swapds", "dropproof",
-              "foreignproof", "clonetag", "labels", "notyet", "inject", "roguekey", "roguesig", "fakedname", "foreigndeny", "wildrep", "wildforeign"}}
+              "foreignproof", "clonetag", "labels", "notyet", "inject", "roguekey", "roguesig", "fakedname", "foreigndeny", "wildrep", "wildforeign", "barenx", "bareempty"}}
 SingleOK == {t \in Single : \A pos \in Positions : t[pos] = "none" \/ t[pos] \in KindsAt(pos)}
 MCTampers == {Untouched} \cup SingleOK
 \* pairs: one tampering at each of two different positions
-MCTamperPairs == {t \in [Positions -> UNION {KindsAt(p) : p \in Positions} \cup {"none"}] :
-                    /\ \A pos \in Positions : t[pos] = "none" \/ t[pos] \in KindsAt(pos)
-                    /\ Cardinality({pos \in Positions : t[pos] # "none"}) = 2}
+MCTamperPairs == UNION { UNION { { [Untouched EXCEPT ![p1] = k1, ![p2] = k2] : k1 \in KindsAt(p1), k2 \in KindsAt(p2) }
+                                  : p2 \in Positions \ {p1} } : p1 \in Positions }
 MCFlags == [do : BOOLEAN, ad : BOOLEAN, cd : BOOLEAN]
 =============================================================================
